@@ -19,6 +19,8 @@ CHECKS = {
             "deterministic simulation + fault injection; label-bijection oracle over all delivered halves"),
     "C06": ("fault_enumeration", "§4 C06", "two fixed mixed chmux workloads (handshake, port opens, chunked transfers both ways, port batch, pending connect/accept/closed()/recv, idle tail with pings); every frame index x direction x fault kind (sink error, stream error, EOF, silent stall both ways, one-directional stall) is executed under N seeded schedules; oracle = both dispatchers end with Err by timeout+eps, every outstanding and fresh operation errors in bounded virtual time, no orderly end-of-stream is reported, received is a prefix of sent; points beyond the traffic exercise the idle-survival clause (hours of virtual idle time, then a transfer)",
             "deterministic simulation; exhaustive enumeration of transport cut points x fault kinds, seeded schedules per point"),
+    "C07": ("exploration", "§4 C07", "two real chmux endpoints run 1-20 open/transfer/close cycles: ports opened through default connect vs accept (either cancelled part-way), connect_ext wait/no-wait vs inspect + accept/accept_from/reject/drop/hold, pending Connects dropped before/after sent/answer, port batches over open ports, client clones, spare port numbers; all handles are dropped in a drawn permutation with drawn pauses, in the last cycle together with clients and listeners of both sides; tiny port-number space so numbers are reused at once; oracle = both dispatchers return Ok at quiescence with the transport still open, wire port-lifetime model (no number reused before all four finish messages, open+requested ports <= max_ports, nothing sent for a finished port), allocator capacity at every quiescent point == max_ports - ports the wire model says are open or requested (released once finished and not before), live-task count back to its pre-cycle / pre-connection value",
+            "deterministic simulation + fault injection (cancellation, drop orders); wire-trace port-lifetime model + allocator-capacity and live-task conservation oracles at quiescence"),
     "C09": ("exploration", "§4 C09", "(i) every frame a real endpoint emits in real-real workloads is strictly decoded and canonically re-encoded by an independent reference codec frozen from the v3 layout; (ii) coverage driver + completeness self-test: every message kind and flag combination must be observed; (iii) real endpoint against the scripted reference peer speaking v3 and v2 with boundary Hello values, junk before Hello, id-less OpenPort/PortData, credit and chunk discipline, label echo over ports opened in both directions; (iv) Connect::io through an independent length-prefix parser that re-chunks the byte stream",
             "deterministic simulation; reference-codec differential oracle + scripted reference peer (refinement of the frozen layout)"),
     "C10": ("exploration", "§4 C10", "1-3 client actors issue default connect(), connect_ext(wait/no-wait, PortReq ids), cancelled connects and Connect::sent()+marker message; a listener actor draws accept / inspect+accept / accept_from / reject / reject(no_ports) / drop per request, with cancelled accepts; max_ports 2-8, connect_queue 1-4, every Cfg::ports_exhausted policy; oracle = no request pending at quiescence, client outcome equals the listener's recorded decision per request id, accepted pairs echo their own label on both legs, a request reported as sent is obtainable from the listener before later data arrives, unanswered OpenPort frames never exceed the advertised connect queue (wire monitor), exhaustion policy clause",
